@@ -214,12 +214,49 @@ def rule_json(ck):
     s = P.func('csep.core.repositories.FileSystem.save')
     dumps = calls_in(P, s, 'json.dump')
     o = ck.ob('C18-D4.dump', s, dumps[0] if dumps else 'json.dump', dumps[0] if dumps else s.node)
-    good = len(dumps) == 1 and u(dumps[0].args[0]) == s.positional_params[1] and u(kw(dumps[0], 'default') or ast.Constant(None)) == 'str'
+    dflt = kw(dumps[0], 'default') if dumps else None
+    good = len(dumps) == 1 and u(dumps[0].args[0]) == s.positional_params[1] and dflt is not None
     if good:
         # written to self.url opened for writing
         withs = [n for n in all_nodes(s) if isinstance(n, ast.With) and any(x is dumps[0] for x in ast.walk(n))]
         good = bool(withs) and 'open(self.url, \'w\')' in u(withs[0].items[0].context_expr)
-    (o.ok("json.dump(data, f, default=str) into self.url") if good else o.fail('save does not json.dump the given dictionary (default=str) into the repository url'))
+    (o.ok("json.dump(data, f, default=...) into self.url") if good else o.fail('save does not json.dump the given dictionary (with a default= handler) into the repository url'))
+    # numbers stay numbers: result fields are filled from numpy reductions (min_mw = numpy.min(magnitudes), counts, sums); a numpy
+    # scalar that is not a float subclass (any integer dtype, float32) is unknown to json and goes through the default handler
+    srcs = 0
+    for f in P.funcs.values():
+        if f.module.name in ('csep.core.poisson_evaluations', 'csep.core.binomial_evaluations', 'csep.core.brier_evaluations', 'csep.core.catalog_evaluations'):
+            for a in all_nodes(f):
+                if isinstance(a, ast.Assign) and isinstance(a.targets[0], ast.Attribute) and a.targets[0].attr == 'min_mw' \
+                        and isinstance(a.value, ast.Call) and (callee(P, f, a.value) or '').startswith('numpy.'):
+                    srcs += 1
+    ck.extra['numpy_scalar_result_fields'] = srcs
+    o = ck.ob('C18-D4.numbers', s, 'numpy scalars are written as numbers', dumps[0] if dumps else s.node)
+    if dflt is None or srcs == 0:
+        o.unknown('no default handler / no numpy-valued result field found (%d)' % srcs)
+    else:
+        h = P.canon(s, dflt) if isinstance(dflt, (ast.Name, ast.Attribute)) else None
+        if h == 'builtins.str':
+            o.fail('json.dump(..., default=str): every numpy scalar json does not know (integer dtypes, float32 - e.g. min_mw = numpy.min of '
+                   'integer magnitude edges, %d result fields are numpy reductions) is written as text and loads back as a string' % srcs)
+        elif h in P.funcs:
+            g = P.funcs[h]
+            prm = g.positional_params[0] if g.positional_params else None
+            good = False
+            for n in all_nodes(g):
+                if isinstance(n, ast.If) and isinstance(n.test, ast.Call) and u(n.test.func) == 'isinstance' and len(n.test.args) == 2 \
+                        and u(n.test.args[0]) == prm:
+                    kinds = [P.canon(g, k_) for k_ in (n.test.args[1].elts if isinstance(n.test.args[1], ast.Tuple) else [n.test.args[1]])]
+                    rets = [r for st in n.body for r in ast.walk(st) if isinstance(r, ast.Return) and r.value is not None]
+                    conv = rets and all(isinstance(r.value, ast.Call) and (
+                        (isinstance(r.value.func, ast.Attribute) and r.value.func.attr in ('tolist', 'item') and u(r.value.func.value) == prm)
+                        or u(r.value.func) in ('int', 'float')) for r in rets)
+                    if ('numpy.generic' in kinds or {'numpy.integer', 'numpy.floating'} <= set(kinds)) and conv:
+                        good = True
+            (o.ok('%s maps numpy.generic to its Python number' % g.short) if good else
+             o.fail('the default handler %s does not turn numpy scalars (numpy.generic) into Python numbers with .item()/.tolist()' % g.short))
+        else:
+            o.unknown('unrecognised default handler `%s`' % u(dflt))
     l = P.func('csep.load_evaluation_result')
     loads = calls_in(P, l, 'json.load')
     o = ck.ob('C18-D4.load', l, loads[0] if loads else 'json.load', loads[0] if loads else l.node)
